@@ -56,7 +56,20 @@ func ruleGroupingKey(c *Ctx, norm, uuid *ssa.Function) {
 		for f := range fields {
 			names = append(names, f.Name())
 		}
-		c.Check(len(names) == 1 && names[0] == "Phys", "R20.1", key, pos, "result = PhysicalID(d.Phys)", fmt.Sprintf("the grouping identifier reads %v, it must depend on the physical location (Phys) only", names))
+		// ... and it is the location itself, not a function of it: a prefix or a normalised form puts handlers with different
+		// locations into one group ("exactly when they report the same physical location")
+		whole := false
+		if r := paths[0].Ret[0].StripConv(); (r.Op == "field" || r.Op == "load") && strings.HasSuffix(r.String(), ".Phys") {
+			whole = true
+		}
+		switch {
+		case !(len(names) == 1 && names[0] == "Phys"):
+			c.Bad("R20.1", key, pos, fmt.Sprintf("the grouping identifier reads %v, it must depend on the physical location (Phys) only", names))
+		case !whole:
+			c.Bad("R20.1", key, pos, "the grouping identifier is computed from Phys ("+truncate(paths[0].Ret[0].String(), 100)+") instead of being Phys itself: handlers whose locations differ can get the same identifier and are merged into one device")
+		default:
+			c.OK("R20.1", key, pos, "result = PhysicalID(d.Phys)")
+		}
 	}
 	// the map key in Normalize is PhysicalUUID of the element being appended
 	n := 0
